@@ -40,9 +40,15 @@ NStep(st, e, t) ==
            ELSE IF e.raised THEN Bad(st, "unsubscribe(all) of a subscribed id raised")
            ELSE Check(st, e, [st EXCEPT !.subs = UnsubscribeAll(st.subs, e.id)])
       [] e.e = "add" ->
-           LET r == AddNodeX(st.subs, st.nodes, e.kind, e.nid, e.gen, e.extra) IN
-           IF e.raised THEN Bad(st, "adding / replacing a node raised")
-           ELSE Check(st, e, [st EXCEPT !.subs = r.subs, !.nodes = r.nodes])
+           LET r == AddNodeX(st.subs, st.nodes, e.kind, e.nid, e.gen, e.extra)
+               \* the node that is replaced leaves first; one of its handlers may be gone already
+               old == IF e.nid \in DOMAIN st.nodes THEN UnsubUntilMissing(st.subs, AllHandlers(st.nodes[e.nid], e.nid))
+                      ELSE [subs |-> st.subs, ok |-> TRUE]
+           IN IF ~old.ok
+                THEN IF ~e.raised THEN Bad(st, "replacing a node one of whose handlers had been unsubscribed did not raise")
+                     ELSE Check(st, e, [st EXCEPT !.subs = old.subs])
+              ELSE IF e.raised THEN Bad(st, "adding / replacing a node raised")
+              ELSE Check(st, e, [st EXCEPT !.subs = r.subs, !.nodes = r.nodes])
       [] e.e = "addsdo" ->
            IF e.nid \notin DOMAIN st.nodes \/ st.nodes[e.nid].kind # "remote" THEN Bad(st, "HARNESS: add_sdo on absent / local node")
            ELSE IF e.raised THEN Bad(st, "add_sdo raised")
@@ -50,9 +56,15 @@ NStep(st, e, t) ==
                 Check(st, e, [st EXCEPT !.subs = r.subs, !.nodes = r.nodes])
       [] e.e = "remove" ->
            IF e.nid \notin DOMAIN st.nodes THEN Bad(st, "HARNESS: remove of absent node")
-           ELSE IF e.raised THEN Bad(st, "removing a node raised")
-           ELSE LET r == RemoveNode(st.subs, st.nodes, e.nid) IN
-                Check(st, e, [st EXCEPT !.subs = r.subs, !.nodes = r.nodes])
+           ELSE LET r == RemoveNode(st.subs, st.nodes, e.nid)
+                    u == UnsubUntilMissing(st.subs, AllHandlers(st.nodes[e.nid], e.nid))
+                IN IF ~u.ok
+                     \* the application has unsubscribed one of the node's handlers itself: the removal
+                     \* fails there, loudly, and the node stays
+                     THEN IF ~e.raised THEN Bad(st, "removing a node one of whose handlers had been unsubscribed did not raise")
+                          ELSE Check(st, e, [st EXCEPT !.subs = u.subs])
+                   ELSE IF e.raised THEN Bad(st, "removing a node raised")
+                   ELSE Check(st, e, [st EXCEPT !.subs = r.subs, !.nodes = r.nodes])
       [] e.e = "notify" ->
            IF e.raised THEN Bad(st, "notify raised")
            ELSE IF e.delivered # Expected(st.subs, e.id, e.d, e.ts)
